@@ -745,7 +745,7 @@ fn exercise(name: &str, spec: &ProgSpec, rng: &mut Rng, n_tuples: usize) -> Out1
 
 pub fn run(seed: u64, tier: &str, ev: &mut Evidence) -> Vec<Violation> {
     let thorough = tier == "thorough";
-    let (n_gen, n_tuples, n_nest) = if thorough { (12_000usize, 10usize, 1200usize) } else { (150, 5, 60) };
+    let (n_gen, n_tuples, n_nest) = if thorough { (12_000usize, 10usize, 1200usize) } else { (450, 6, 150) };
     let mut specs: Vec<(String, ProgSpec)> = work::corpus_specs().into_iter().filter(|(_, s)| s.source().is_some()).map(|(n, s)| (format!("corpus:{}", n), s)).collect();
     for j in 0..n_gen {
         let mut rng = Rng::for_case(seed, "C06", "workload", j as u64);
@@ -768,7 +768,7 @@ pub fn run(seed: u64, tier: &str, ev: &mut Evidence) -> Vec<Violation> {
         exercise(&specs[i].0, &specs[i].1, &mut rng, n_tuples)
     });
     // ---- batches into one output directory -----------------------------------------------------
-    let n_batches = if thorough { 3000usize } else { 90 };
+    let n_batches = if thorough { 4000usize } else { 250 };
     let gen_lo = specs.iter().position(|(n, _)| n.starts_with("gen:")).unwrap_or(0);
     let batch_out: Vec<Option<(Value, String, String)>> = par_map(n_batches, |k| {
         let mut rng = Rng::for_case(seed, "C06", "batch", k as u64);
